@@ -13,7 +13,7 @@ RULE = ("every frequency-of-frequency vector of the bound (as list and ndarray) 
         "missing values; non-trivial = f2>0 (richness) / non-empty intersection (overlap)")
 ASSUMPTIONS = ["float results compared with the exact rational closed form to 1e-12 relative",
                "jaccard_index: missing values only inside Series (documented behaviour); ratio forms only where both element sets are non-empty after removal"]
-REQUIRED_CLASSES = {"all": ["f2-zero", "f2-positive", "length-1-vector", "set-container", "series-with-missing", "duplicates", "large-counts", "categorical-with-unused-categories", "tuple-elements", "dict-or-index-container", "string-as-collection"]}
+REQUIRED_CLASSES = {"all": ["f2-zero", "f2-positive", "length-1-vector", "set-container", "series-with-missing", "duplicates", "large-counts", "categorical-with-unused-categories", "tuple-elements", "dict-or-index-container", "string-as-collection", "large-integers-vs-floats"]}
 MIN_OUTCOMES = 8
 NAN = float("nan")
 ELEMS = ("a", "b", "c", None, NAN)
@@ -39,6 +39,11 @@ def spaces(tier):
             for a in itertools.product(range(6), repeat=n):
                 yield ("tuples", a)
 
+    def gen_bigint():
+        for n in range(1, 4):
+            for a in itertools.product(range(5), repeat=n):
+                yield ("bigint", a)
+
     def gen_strings():
         for A in ("", "a", "ab", "aab", "abc", "cab"):
             yield ("strings", A)
@@ -53,6 +58,7 @@ def spaces(tier):
         Space("frequency-of-frequency-vectors", gen_ff, "all vectors of length 1..4 with entries 0..4 (quick) / length 1..5, entries 0..5 (thorough), as list and ndarray, m in {2,5}"),
         Space("magnitude-boundary-family", gen_mag, "f1 in {2^8-1, 2^8, 55108, 55109, 2^16-1, 2^16, 2^21+1, 2^31-1} x f2 in {0, 1, 3, 1000, 2^16, 2^21+1}, as list and as int64 ndarray (int64 powers of such counts overflow)"),
         Space("tuple-valued-elements", gen_tuples, "collections of 0..2 elements from {(a,b), (None,b), (a,), (a,b,c), None, (NaN,x)} against each other in list/set/tuple/Series containers (overlap, overlap_coefficient)"),
+        Space("large-integers-and-floats", gen_bigint, "collections of 1..3 elements from {2^53+1, 2.0^53, 7, 7.0, True} against each other (equality is Python equality: 7 == 7.0, 2^53+1 != 2.0^53, True == 1) as list / Series"),
         Space("strings-as-collections", gen_strings, "6 x 7 pairs of short strings (iterables of characters) as str / list / tuple"),
         Space("collection-pairs", gen_ov, "A, B in all lists of length 0..3 over {a,b,c,None,NaN} (156 x 156 pairs; one case = one A against every B) x {list, tuple, set, Series}; also with numeric elements"),
     ]
@@ -126,6 +132,34 @@ def check_case(case, acc):
         for n in range(0, 4):
             for b in itertools.product(idx, repeat=n):
                 _check_overlap(acc, a, b)
+    elif kind == "bigint":
+        pool = (2 ** 53 + 1, 2.0 ** 53, 7, 7.0, 1)
+        A = [pool[i] for i in case[1]]
+        acc.cls("large-integers-vs-floats")
+        for nB in range(1, 3):
+            for bi in itertools.product(range(5), repeat=nB):
+                B = [pool[i] for i in bi]
+                sa, sb = set(A), set(B)
+                for x, y, tag in ((A, B, "list-list"), (pd.Series(A, dtype=object), B, "series-list"), (tuple(A), set(B), "tuple-set")):
+                    r = acc.call(pyrepseq.overlap, x, y)
+                    rc = acc.call(pyrepseq.overlap_coefficient, x, y)
+                    rj = acc.call(pyrepseq.jaccard_index, x, y)
+                    if raised(r) or r != len(sa & sb) or raised(rc) or not feq(rc, len(sa & sb) / min(len(sa), len(sb))) or raised(rj) or not feq(rj, len(sa & sb) / len(sa | sb)):
+                        acc.fail("overlap/large-integers-vs-floats", ("bigint", case[1]), len(sa & sb), (r, rc, rj), note="B=%r %s" % (B, tag))
+                        return
+                    acc.ok(("big", len(sa & sb)), nontrivial=bool(sa & sb))
+        # a categorical integer Series against booleans and floats (True == 1, 7 == 7.0 are the same element)
+        ints = [v for v in A if isinstance(v, int) and not isinstance(v, bool) and abs(v) < 100]
+        if ints:
+            for B in ([True, False], [True, 7.0], [False], [1.0, 7]):
+                sa, sb = set(ints), set(B)
+                for x, y in ((pd.Series(ints, dtype="category"), B), (B, pd.Series(ints, dtype="category"))):
+                    r = acc.call(pyrepseq.overlap, x, y)
+                    rc = acc.call(pyrepseq.overlap_coefficient, x, y)
+                    if raised(r) or r != len(sa & sb) or raised(rc) or not feq(rc, len(sa & sb) / min(len(sa), len(sb))):
+                        acc.fail("overlap/categorical-integers-vs-booleans", ("bigint", case[1]), len(sa & sb), (r, rc), note="ints=%r B=%r" % (ints, B))
+                        return
+                    acc.ok()
     elif kind == "strings":
         # a str is an iterable of its characters
         A = case[1]
